@@ -603,6 +603,14 @@ func (c *Ctx) evalBin(e *Expr) Val {
 			b = c.coerceLit(b, SInt)
 		}
 	}
+	if a.Kind == VScalar && b.Kind == VScalar && a.GoT != nil && b.GoT == nil || a.Kind == VScalar && b.Kind == VScalar {
+		// a machine integer (bit-vector in `arith bv`) compared with a mathematical integer: compare integer values
+		if a.Sort == SInt && isBVSort(b.Sort) && b.GoT != nil {
+			b = scalar(c.intTerm(b), SInt, b.GoT)
+		} else if b.Sort == SInt && isBVSort(a.Sort) && a.GoT != nil {
+			a = scalar(c.intTerm(a), SInt, a.GoT)
+		}
+	}
 	if op == "==" || op == "!=" {
 		t := c.eqVals(a, b)
 		if op == "!=" {
